@@ -126,6 +126,7 @@ def parseEv (tok : String) : Option PEv :=
     match t?, parseSlots sl, r? with
     | some t, some sl, some r => some (.poll t sl r)
     | _, _, _ => none
+  | ["hstop"] => some .other
   | ["skip", _] => some .other
   | ["dup", _] => some .other
   | _ => none
@@ -198,6 +199,7 @@ def applyAct (s : SSt) (a : Act) : SSt × List (Int × Nat × WType) :=
     if !validPid pid then (s, []) else
     if s.children.any (·.pid = pid) then (s, [])
     else ({ s with children := s.children ++ [{ pid := pid, exited := true, reaped := false, status := status }] }, [])
+  | .stop => (s, [])
   | .nop => (s, [])
 
 def kindName : WType → String
@@ -441,6 +443,26 @@ def checkTick (s : SSt) (hang : Bool) (evs : List PEv) (cut : Bool) : Except Str
       .ok (s.inpoll.foldl raiseS { s with inpoll := [] })
     else .error "no wait in this iteration"
 
+/-- The events of a `tickit_run`, one list per iteration (each begins at its wait). -/
+def splitAtPolls : List PEv → List PEv → Bool → List (List PEv)
+  | [], cur, _ => [cur.reverse]
+  | e :: rest, cur, seen =>
+    match e with
+    | .poll .. => if seen then cur.reverse :: splitAtPolls rest [e] true else splitAtPolls rest (e :: cur) true
+    | _ => splitAtPolls rest (e :: cur) seen
+
+/-- `tickit_run`: every iteration is held to the clauses of an iteration. -/
+def checkRun (s : SSt) (evs : List PEv) (cut : Bool) : Except String SSt :=
+  let segs := splitAtPolls evs [] false
+  let n := segs.length
+  let rec go (s : SSt) (i : Nat) : List (List PEv) → Except String SSt
+    | [] => .ok s
+    | seg :: rest =>
+      match checkTick s true seg (cut && i + 1 = n) with
+      | .error e => .error e
+      | .ok s => if s.misuse then .ok s else go s (i + 1) rest
+  go s 0 segs
+
 /-- Destruction: every remaining watch that asked for it is notified exactly once. -/
 def checkDestroy (s : SSt) (evs : List PEv) (cut : Bool) : Except String SSt :=
   -- a pending signal whose watchers go away with the instance reaches the process with its default action
@@ -509,6 +531,7 @@ def step (s : SSt) (op : Op) (impl : List String) (why : String) (owner : Nat :=
       | .inpoll sg => .ok { s with inpoll := s.inpoll ++ [sg] }
       | .tick => checkTick s false evs cut
       | .tickhang => checkTick s true evs cut
+      | .run => checkRun s evs cut
       | .destroy => checkDestroy s evs cut
       | _ => .ok s
     match r with
